@@ -14,7 +14,7 @@ impl Types {
         unsafe {
             let mut i = 0;
             while i < DEFS.len() {
-                if bytes_eq(DEFS[i].0.as_bytes(), kind.as_bytes()) {
+                if bytes_eq_sym::<1>(DEFS[i].0.as_bytes(), kind.as_bytes()) {
                     return Ok(TypeDefinition { kind, members: &DEFS[i].1 });
                 }
                 i += 1;
@@ -38,7 +38,7 @@ macro_rules! types_harness {
         crate::verif_harness! {
             #[kani::stub(crate::typeddata::Types::type_definition, crate::typeddata::Types::__verif_type_definition)]
             #[kani::stub(std::hash::RandomState::new, random_state_stub)]
-            #[kani::stub(ethdigest::Digest::of, crate::__verif_common::digest_of_stub)]
+            #[kani::stub(ethdigest::Digest::of, crate::__verif_common::digest_of_stub80)]
             $(#[$m])*
             fn $name() $body
         }
@@ -270,11 +270,7 @@ fn check_encode_type(primary: usize, choices: [u8; 6]) {
         Ok(s) => {
             let sb = s.as_bytes();
             assert!(sb.len() == n, "encodeType: wrong set of referenced types (length differs)");
-            let mut i = 0;
-            while i < n {
-                assert!(sb[i] == exp[i], "encodeType differs from primary + sorted transitive dependencies");
-                i += 1;
-            }
+            assert!(bytes_eq_sym::<6>(sb, &exp[..n]), "encodeType differs from primary + sorted transitive dependencies");
         }
         Err(_) => panic!("encodeType failed on a closed type graph"),
     }
@@ -284,7 +280,7 @@ fn check_encode_type(primary: usize, choices: [u8; 6]) {
 macro_rules! encode_type_harness {
     ($($name:ident = $p:expr;)*) => {$(
         types_harness! {
-            #[kani::unwind(40)]
+            #[kani::unwind(12)]
             fn $name() {
                 let choices: [u8; 6] = kani::any();
                 let mut i = 0;
@@ -301,7 +297,7 @@ encode_type_harness! { c08_encode_type_a = 0; c08_encode_type_b = 1; c08_encode_
 
 // Smaller variant: primary P with members (x, y) symbolic, A and B have one symbolic member each.
 types_harness! {
-    #[kani::unwind(40)]
+    #[kani::unwind(12)]
     fn c08_encode_type_small() {
         let c: [u8; 4] = kani::any();
         let mut i = 0;
@@ -315,7 +311,7 @@ types_harness! {
 
 // undefined struct reference -> error (C09)
 types_harness! {
-    #[kani::unwind(40)]
+    #[kani::unwind(12)]
     fn c09_undefined_reference() {
         unsafe {
             DEFS = vec![("P", vec![member("x", MemberKind::Struct("Q".to_string()))])];
@@ -351,7 +347,7 @@ impl Types {
 }
 types_harness! {
     #[kani::stub(crate::typeddata::Types::struct_hash, crate::typeddata::Types::__verif_struct_hash)]
-    #[kani::unwind(70)]
+    #[kani::unwind(14)]
     fn c08_final_digest() {
         unsafe {
             DEFS = vec![("EIP712Domain", vec![member("name", MemberKind::String)])];
@@ -368,16 +364,12 @@ types_harness! {
                 let mut pre = [0u8; 66];
                 pre[0] = 0x19;
                 pre[1] = 0x01;
-                let mut i = 0;
-                while i < 32 {
-                    pre[2 + i] = SH_OUT[0][i];
-                    pre[34 + i] = SH_OUT[1][i];
-                    i += 1;
-                }
+                pre[2..34].copy_from_slice(&SH_OUT[0]);
+                pre[34..66].copy_from_slice(&SH_OUT[1]);
                 assert!(digest_calls() == 1);
-                digest_expect(0, &pre, &td.signing_message().0);
-                assert!(td.domain_separator().0 == SH_OUT[0], "domain separator");
-                assert!(td.message_hash().0 == SH_OUT[1], "message hash");
+                digest_expect80(0, &pre, &td.signing_message().0);
+                assert!(eq32(&td.domain_separator().0, &SH_OUT[0]), "domain separator");
+                assert!(eq32(&td.message_hash().0, &SH_OUT[1]), "message hash");
             }
         }
         core::mem::forget(got);
@@ -388,6 +380,12 @@ types_harness! {
 // The JSON number parser is abstracted: it returns an arbitrary 256-bit value (which spellings give
 // which value is C13). All 2^256 values x all 32 widths in one query each.
 static mut PARSED: [u8; 32] = [0; 32];
+fn halves(v: &[u8; 32]) -> (u128, u128) {
+    (
+        u128::from_be_bytes([v[0], v[1], v[2], v[3], v[4], v[5], v[6], v[7], v[8], v[9], v[10], v[11], v[12], v[13], v[14], v[15]]),
+        u128::from_be_bytes([v[16], v[17], v[18], v[19], v[20], v[21], v[22], v[23], v[24], v[25], v[26], v[27], v[28], v[29], v[30], v[31]]),
+    )
+}
 fn permissive_stub<'de, T, D>(_deserializer: D) -> core::result::Result<T, D::Error>
 where
     T: permissive::Permissive,
@@ -400,7 +398,7 @@ where
 
 types_harness! {
     #[kani::stub(ethnum::serde::permissive::deserialize, permissive_stub)]
-    #[kani::unwind(36)]
+    #[kani::unwind(4)]
     fn c09_uint_range() {
         let k: u32 = kani::any();
         kani::assume(k >= 1 && k <= 32);
@@ -408,15 +406,15 @@ types_harness! {
         let types = empty_types();
         let got = types.encode_value(&MemberKind::Uint(n), Value::Null);
         let v = unsafe { PARSED };
-        // v < 2^n  <=>  the top 32-k bytes are zero
-        let mut fits = true;
-        let mut i = 0;
-        while i < 32 {
-            if (i as u32) < 32 - k && v[i] != 0 {
-                fits = false;
-            }
-            i += 1;
-        }
+        // v < 2^n, on the two 128-bit halves (no loop)
+        let (hi, lo) = halves(&v);
+        let fits = if n >= 256 {
+            true
+        } else if n >= 128 {
+            hi >> (n - 128) == 0
+        } else {
+            hi == 0 && lo >> n == 0
+        };
         kani::cover!(fits && k == 1 && v[31] == 0xff, "uint8 255 accepted");
         kani::cover!(!fits && k == 1, "uint8 overflow rejected");
         kani::cover!(fits && k == 32 && v[0] == 0xff, "uint256 maximum accepted");
@@ -424,11 +422,7 @@ types_harness! {
         match &got {
             Ok(word) => {
                 assert!(fits, "value outside [0, 2^N) accepted for uintN");
-                let mut i = 0;
-                while i < 32 {
-                    assert!(word[i] == v[i], "encoded word differs from the value");
-                    i += 1;
-                }
+                assert!(eq32(word, &v), "encoded word differs from the value");
             }
             Err(_) => assert!(!fits, "value inside [0, 2^N) rejected for uintN"),
         }
@@ -438,7 +432,7 @@ types_harness! {
 
 types_harness! {
     #[kani::stub(ethnum::serde::permissive::deserialize, permissive_stub)]
-    #[kani::unwind(36)]
+    #[kani::unwind(4)]
     fn c09_int_range() {
         let k: u32 = kani::any();
         kani::assume(k >= 1 && k <= 32);
@@ -446,19 +440,16 @@ types_harness! {
         let types = empty_types();
         let got = types.encode_value(&MemberKind::Int(n), Value::Null);
         let v = unsafe { PARSED };
-        // -2^(n-1) <= v < 2^(n-1) in two's complement <=> the top 32-k bytes and the sign bit of
-        // byte 32-k are all copies of one bit
-        let sign_byte = v[(32 - k) as usize];
-        let negative = sign_byte & 0x80 != 0;
-        let fill = if negative { 0xff } else { 0x00 };
-        let mut fits = true;
-        let mut i = 0;
-        while i < 32 {
-            if (i as u32) < 32 - k && v[i] != fill {
-                fits = false;
-            }
-            i += 1;
-        }
+        // -2^(n-1) <= v < 2^(n-1) in two's complement <=> bits n-1..255 are all equal (no loop)
+        let (hi, lo) = halves(&v);
+        let m = n - 1; // sign bit position of the declared width
+        let fits = if m >= 128 {
+            let t = (hi as i128) >> (m - 128);
+            t == 0 || t == -1
+        } else {
+            let t = (lo as i128) >> m;
+            (hi == 0 && t == 0) || (hi == u128::MAX && t == -1)
+        };
         kani::cover!(fits && k == 1 && v[31] == 0x7f, "int8 127 accepted");
         kani::cover!(fits && k == 1 && v[31] == 0x80, "int8 -128 accepted");
         kani::cover!(!fits && k == 1 && v[30] == 0 && v[31] == 0x80, "int8 128 rejected");
@@ -467,11 +458,7 @@ types_harness! {
         match &got {
             Ok(word) => {
                 assert!(fits, "value outside [-2^(N-1), 2^(N-1)) accepted for intN");
-                let mut i = 0;
-                while i < 32 {
-                    assert!(word[i] == v[i], "encoded word is not the sign-extended two's complement value");
-                    i += 1;
-                }
+                assert!(eq32(word, &v), "encoded word is not the sign-extended two's complement value");
             }
             Err(_) => assert!(!fits, "value inside [-2^(N-1), 2^(N-1)) rejected for intN"),
         }
@@ -493,7 +480,7 @@ fn hex_string(bytes: &[u8]) -> String {
 
 // bool: true -> 1, false -> 0, any other JSON kind refused
 types_harness! {
-    #[kani::unwind(36)]
+    #[kani::unwind(12)]
     fn c08_atom_bool() {
         let which: u8 = kani::any();
         kani::assume(which < 4);
@@ -511,12 +498,9 @@ types_harness! {
         match &got {
             Ok(word) => {
                 assert!(which == 0, "JSON value of the wrong kind accepted as bool");
-                let mut i = 0;
-                while i < 31 {
-                    assert!(word[i] == 0);
-                    i += 1;
-                }
-                assert!(word[31] == bv as u8);
+                let mut exp = [0u8; 32];
+                exp[31] = bv as u8;
+                assert!(eq32(word, &exp));
             }
             Err(_) => assert!(which != 0, "JSON boolean refused"),
         }
@@ -524,39 +508,93 @@ types_harness! {
     }
 }
 
-// bytesN: exactly N bytes accepted (left-aligned, zero padded), N-1 and N+1 refused
+// bytesN: exactly N bytes accepted (left-aligned, zero padded), N-1 and N+1 refused.
+// The hex-string deserializer `serialization::bytes::deserialize` is abstracted here (it returns the
+// harness' byte string, or an error) and decided on its own in C13 (`c13_bytes_N`, `c13_bytes_wrong_kind`).
+static mut LEAF_BYTES: Vec<u8> = Vec::new();
+static mut LEAF_FAIL: bool = false;
+fn bytes_leaf_stub<'de, D>(_deserializer: D) -> core::result::Result<Vec<u8>, D::Error>
+where
+    D: Deserializer<'de>,
+{
+    unsafe {
+        if LEAF_FAIL {
+            return Err(de::Error::custom("not a byte string"));
+        }
+        Ok(LEAF_BYTES.clone())
+    }
+}
+
 fn check_bytes_n<const N: usize, const L: usize>() {
     let data: [u8; L] = kani::any();
+    let fail: bool = kani::any();
+    unsafe {
+        LEAF_BYTES = data.to_vec();
+        LEAF_FAIL = fail;
+    }
     let types = empty_types();
-    let got = types.encode_value(&MemberKind::Bytes(Some(N as u32)), Value::String(hex_string(&data)));
-    kani::cover!(true, "reached");
+    let got = types.encode_value(&MemberKind::Bytes(Some(N as u32)), Value::Null);
+    kani::cover!(!fail, "leaf accepted");
+    kani::cover!(fail, "leaf refused");
     match &got {
         Ok(word) => {
+            assert!(!fail, "value refused by the byte-string parser was accepted");
             assert!(L == N, "byte string of the wrong length accepted for bytesN");
-            let mut i = 0;
-            while i < 32 {
-                assert!(word[i] == if i < N { data[i] } else { 0 }, "bytesN must be left-aligned and zero padded");
-                i += 1;
+            let mut exp = [0u8; 32];
+            if L <= 32 {
+                exp[..L].copy_from_slice(&data[..]);
             }
+            assert!(eq32(word, &exp), "bytesN must be left-aligned and zero padded");
         }
-        Err(_) => assert!(L != N, "byte string of exactly N bytes refused for bytesN"),
+        Err(_) => assert!(fail || L != N, "byte string of exactly N bytes refused for bytesN"),
     }
     core::mem::forget(got);
 }
 macro_rules! bytes_n_harness {
     ($($name:ident = ($n:expr, $l:expr), $u:expr;)*) => {$(
-        types_harness! { #[kani::unwind($u)] fn $name() { check_bytes_n::<$n, $l>() } }
+        types_harness! {
+            #[kani::stub(crate::serialization::bytes::deserialize, bytes_leaf_stub)]
+            #[kani::unwind($u)]
+            fn $name() { check_bytes_n::<$n, $l>() }
+        }
     )*};
 }
 bytes_n_harness! {
-    c09_bytes1_len0 = (1, 0), 36; c09_bytes1_len1 = (1, 1), 36; c09_bytes1_len2 = (1, 2), 36;
-    c09_bytes4_len3 = (4, 3), 36; c09_bytes4_len4 = (4, 4), 36; c09_bytes4_len5 = (4, 5), 36;
-    c09_bytes32_len31 = (32, 31), 70; c09_bytes32_len32 = (32, 32), 70; c09_bytes32_len33 = (32, 33), 70;
+    c09_bytes1_len0 = (1, 0), 12; c09_bytes1_len1 = (1, 1), 12; c09_bytes1_len2 = (1, 2), 12;
+    c09_bytes4_len3 = (4, 3), 12; c09_bytes4_len4 = (4, 4), 12; c09_bytes4_len5 = (4, 5), 12;
+    c09_bytes31_len31 = (31, 31), 12; c09_bytes31_len32 = (31, 32), 12;
+    c09_bytes32_len31 = (32, 31), 12; c09_bytes32_len32 = (32, 32), 12; c09_bytes32_len33 = (32, 33), 12;
+}
+
+// dynamic bytes: Keccak-256 of the raw bytes (same leaf abstraction)
+types_harness! {
+    #[kani::stub(crate::serialization::bytes::deserialize, bytes_leaf_stub)]
+    #[kani::unwind(12)]
+    fn c08_atom_bytes_dynamic() {
+        let data: [u8; 37] = kani::any();
+        unsafe {
+            LEAF_BYTES = data.to_vec();
+            LEAF_FAIL = false;
+        }
+        let types = empty_types();
+        let got = types.encode_value(&MemberKind::Bytes(None), Value::Null);
+        kani::cover!(true, "reached");
+        match &got {
+            Ok(word) => {
+                if stubs_active() {
+                    assert!(digest_calls() == 1);
+                }
+                digest_expect80(0, &data, word);
+            }
+            Err(_) => panic!("well-formed dynamic bytes refused"),
+        }
+        core::mem::forget(got);
+    }
 }
 
 // address: 20 bytes right-aligned
 types_harness! {
-    #[kani::unwind(50)]
+    #[kani::unwind(24)]
     fn c08_atom_address() {
         let a: [u8; 20] = kani::any();
         let types = empty_types();
@@ -564,11 +602,9 @@ types_harness! {
         kani::cover!(true, "reached");
         match &got {
             Ok(word) => {
-                let mut i = 0;
-                while i < 32 {
-                    assert!(word[i] == if i < 12 { 0 } else { a[i - 12] }, "address must be right-aligned");
-                    i += 1;
-                }
+                let mut exp = [0u8; 32];
+                exp[12..].copy_from_slice(&a);
+                assert!(eq32(word, &exp), "address must be right-aligned");
             }
             Err(_) => panic!("well-formed address refused"),
         }
@@ -576,34 +612,28 @@ types_harness! {
     }
 }
 
-// dynamic bytes and strings: Keccak-256 of the raw bytes / of the UTF-8 text
+// strings: Keccak-256 of the UTF-8 text (real `Cow<str>` deserializer)
 types_harness! {
-    #[kani::unwind(40)]
-    fn c08_atom_dynamic() {
+    #[kani::unwind(12)]
+    fn c08_atom_string() {
         let data: [u8; 5] = kani::any();
-        let is_string: bool = kani::any();
         let types = empty_types();
-        let (got, pre): (_, Vec<u8>) = if is_string {
-            let mut i = 0;
-            while i < 5 {
-                kani::assume(data[i] < 0x80);
-                i += 1;
-            }
-            let s = unsafe { String::from_utf8_unchecked(data.to_vec()) };
-            (types.encode_value(&MemberKind::String, Value::String(s)), data.to_vec())
-        } else {
-            (types.encode_value(&MemberKind::Bytes(None), Value::String(hex_string(&data))), data.to_vec())
-        };
-        kani::cover!(is_string, "string");
-        kani::cover!(!is_string, "bytes");
+        let mut i = 0;
+        while i < 5 {
+            kani::assume(data[i] < 0x80);
+            i += 1;
+        }
+        let s = unsafe { String::from_utf8_unchecked(data.to_vec()) };
+        let got = types.encode_value(&MemberKind::String, Value::String(s));
+        kani::cover!(true, "reached");
         match &got {
             Ok(word) => {
                 if stubs_active() {
                     assert!(digest_calls() == 1);
                 }
-                digest_expect(0, &pre, word);
+                digest_expect80(0, &data, word);
             }
-            Err(_) => panic!("well-formed dynamic value refused"),
+            Err(_) => panic!("well-formed string refused"),
         }
         core::mem::forget(got);
     }
@@ -634,7 +664,7 @@ fn check_array<const SIZE: usize, const LEN: usize>(fixed: bool) {
             if stubs_active() {
                 assert!(digest_calls() == 1);
             }
-            digest_expect(0, &pre[..32 * LEN], word);
+            digest_expect80(0, &pre[..32 * LEN], word);
         }
         Err(_) => assert!(fixed && LEN != SIZE, "well-formed array refused"),
     }
@@ -646,8 +676,8 @@ macro_rules! array_harness {
     )*};
 }
 array_harness! {
-    c09_array_fixed2_len1 = (2, 1, true), 70; c09_array_fixed2_len2 = (2, 2, true), 70; c09_array_fixed2_len3 = (2, 3, true), 100;
-    c08_array_dyn_len0 = (0, 0, false), 40; c08_array_dyn_len2 = (0, 2, false), 70;
+    c09_array_fixed2_len1 = (2, 1, true), 12; c09_array_fixed2_len2 = (2, 2, true), 12; c09_array_fixed2_len3 = (2, 3, true), 12;
+    c08_array_dyn_len0 = (0, 0, false), 12; c08_array_dyn_len2 = (0, 2, false), 12;
 }
 
 // ================================================================================= C08: member type grammar
@@ -800,7 +830,7 @@ fn check_kind_grammar(text: &[u8]) {
             (MemberKind::Uint(a), Base::Uint(b)) => assert!(*a == b),
             (MemberKind::Int(a), Base::Int(b)) => assert!(*a == b),
             (MemberKind::Struct(name), Base::Struct(lo, hi)) => {
-                assert!(bytes_eq(name.as_bytes(), &text[lo..hi]), "struct name differs")
+                assert!(bytes_eq_sym::<1>(name.as_bytes(), &text[lo..hi]), "struct name differs")
             }
             _ => panic!("member type parsed to a different kind than the EIP-712 grammar defines"),
         }
@@ -823,8 +853,8 @@ macro_rules! kind_harness {
     )*};
 }
 kind_harness! {
-    c08_kind_ascii_3 = 3, 10; c08_kind_ascii_4 = 4, 10; c08_kind_ascii_5 = 5, 10; c08_kind_ascii_6 = 6, 12;
-    c08_kind_ascii_7 = 7, 12; c08_kind_ascii_8 = 8, 12; c08_kind_ascii_9 = 9, 14; c08_kind_ascii_10 = 10, 14;
+    c08_kind_ascii_3 = 3, 8; c08_kind_ascii_4 = 4, 8; c08_kind_ascii_5 = 5, 8; c08_kind_ascii_6 = 6, 9;
+    c08_kind_ascii_7 = 7, 10; c08_kind_ascii_8 = 8, 11; c08_kind_ascii_9 = 9, 12; c08_kind_ascii_10 = 10, 13;
 }
 
 // a type string with 64 array suffixes terminates and yields 64 nested dimensions (C17)
